@@ -1,5 +1,6 @@
 import FlowRecord.Drive.Util
 import FlowRecord.Model.Stream
+import FlowRecord.Spec.Wire
 /-! Driver handlers for the wire layer: msgpack, UTF-8/surrogateescape, packer envelopes, stream writer/reader. -/
 open Lean
 namespace FlowRecord.Drive
@@ -151,13 +152,30 @@ def handleWire : Handler := fun op j =>
       | some (_, frames) =>
         pure (Json.mkObj [("stream", hexJson (streamOf frames)), ("frames", Json.num frames.length)])
       | none => pure (Json.mkObj [("res", "pack-error")])
+  | "ident" => some do
+      -- the published identifier rule, computed by the model's own SHA-256
+      let name ← wireTextOfHex (← getStr j "name")
+      let fs ← getArr j "fields"
+      let fields ← fs.toList.mapM fun f => do
+        let p ← wireJArr f
+        if p.size != 2 then throw "field: need [type, name]"
+        let t ← wireTextOfHex (← wireJStr p[0]!)
+        let n ← wireTextOfHex (← wireJStr p[1]!)
+        pure (t, n)
+      pure (Json.mkObj [("hash", match Spec.descriptorHash name fields with | some h => Json.num h | none => Json.null)])
   | "wire_read" => some do
       let bs ← getHex j "hex"
-      let table ← (← getArr j "hashes").toList.mapM descOfJson
+      -- identifiers of received descriptors: from the table the caller supplies, or - when there is none - by the
+      -- published rule itself (Spec.descriptorHash: SHA-256 computed by the model)
+      let table ← match j.getObjVal? "hashes" with
+        | .ok (Json.arr a) => a.toList.mapM descOfJson
+        | _ => pure []
+      let useSpec := match j.getObjVal? "hashes" with | .ok (Json.arr _) => false | _ => true
       let hashOf := fun (name : List Nat) (fields : List (List Nat × List Nat)) =>
-        match table.find? (fun d => d.name == name && d.fields == fields) with
-        | some d => d.hash
-        | none => 0
+        if useSpec then (Spec.descriptorHash name fields).getD 0
+        else match table.find? (fun d => d.name == name && d.fields == fields) with
+          | some d => d.hash
+          | none => 0
       let (rs, e) := readAll hashOf bs
       pure (Json.mkObj [("records", Json.arr (rs.map rvToJson).toArray), ("end", Json.str (wireEndName e))])
   | "wire_cuts" => some do
